@@ -140,8 +140,7 @@ def main():
             elif tok[0] == "M":
                 cls = cls_of(node)
                 out = ["M", "extent=%d" % cls._EXTENT_BYTES_]
-                if hasattr(cls, "_FIXED_PORT_ID_"):
-                    out.append("fixed_port_id=%d" % cls._FIXED_PORT_ID_)
+                out.append("fixed_port_id=%d" % cls._FIXED_PORT_ID_ if hasattr(cls, "_FIXED_PORT_ID_") else "fixed_port_id=none")
                 for name, pyname, kind in node.get("consts", []):
                     v = getattr(cls, pyname)
                     if kind == "b":
